@@ -300,8 +300,17 @@ fn nesting_depth(line: &str) -> usize {
     let mut unary_run = 0usize;
     let mut max = 0usize;
     let mut previous = ' ';
+    // closing quote of string or char which is in progress
+    let mut quote: Option<char> = None;
     for c in line.chars() {
+        if let Some(q) = quote {
+            if c == q {
+                quote = None;
+            }
+            continue;
+        }
         match c {
+            '"' | '\'' => quote = Some(c),
             ';' => break,
             '/' if previous == '/' => break,
             '(' => {
